@@ -1,1 +1,112 @@
-def hello := "world"
+/-!
+# Basic data of the zog model
+
+`Val`   — input data as a data provider / Go value presents it (with the Go dynamic type where
+          the coercers look at it),
+`DVal`  — destination values,
+`Issue` — what `ZogIssue` carries that the properties talk about,
+`Event` — the callback log (C12).
+Core-only (linked into the driver).
+-/
+
+namespace Zog
+
+/-- exact value of a float: NaN, ±Inf, or `m * 2^e` -/
+inductive FVal where
+  | nan
+  | inf (neg : Bool)
+  /-- negative zero (`fin 0 _` is +0) -/
+  | nzero
+  | fin (m : Int) (e : Int)
+deriving DecidableEq, Repr, Inhabited
+
+/-- Go integer dynamic types the coercers distinguish -/
+inductive IKind where
+  | int | i64 | i32 | other
+deriving DecidableEq, Repr, Inhabited
+
+/-- destination number kinds -/
+inductive NKind where
+  | int | i32 | i64 | f32 | f64
+deriving DecidableEq, Repr, Inhabited
+
+/-- the Go zero `time.Time{}` as unix nanoseconds -/
+def zeroTimeNs : Int := -62135596800 * 1000000000
+
+inductive Val where
+  | nil
+  | str (s : String)
+  | int (k : IKind) (n : Int)
+  | bool (b : Bool)
+  | f64 (f : FVal)
+  | f32 (f : FVal)
+  | time (ns : Int) (utc : Bool)
+  | list (xs : List Val)
+  | obj (kvs : List (String × Val))
+  /-- flat string source (url.Values / environment): a missing key reads as `""` -/
+  | flat (kvs : List (String × Val))
+  /-- any other Go dynamic type; `desc` is only a label -/
+  | other (desc : String)
+deriving Inhabited
+
+inductive DVal where
+  | str (s : String)
+  | int (k : NKind) (n : Int)
+  | flt (k : NKind) (f : FVal)
+  | bool (b : Bool)
+  | time (ns : Int) (utc : Bool)
+  | slice (xs : List DVal)
+  | struct (fs : List (String × DVal))
+  | ptr (p : Option DVal)
+  /-- destination of a `Custom[T]` schema: holds the input value itself -/
+  | custom (v : Val)
+deriving Inhabited
+
+structure Issue where
+  code : String
+  path : String
+  dtype : String
+  params : List (String × String)
+  message : String
+deriving DecidableEq, Repr, Inhabited
+
+inductive EvKind where
+  | test | post | custom | pre
+deriving DecidableEq, Repr, Inhabited
+
+/-- one callback invocation: which callback, at which node path, with which argument -/
+structure Event where
+  kind : EvKind
+  id : Nat
+  path : String
+  arg : DVal
+deriving Inhabited
+
+inductive Mode where
+  | parse | validate
+deriving DecidableEq, Repr, Inhabited
+
+/-! ## small accessors -/
+
+def lookupD {α : Type} (kvs : List (String × α)) (k : String) : Option α :=
+  match kvs with
+  | [] => none
+  | (k', v) :: rest => if k' == k then some v else lookupD rest k
+
+def DVal.get (d : DVal) (k : String) : DVal :=
+  match d with
+  | .struct fs => (lookupD fs k).getD (.struct [])
+  | _ => .struct []
+
+def setD (fs : List (String × DVal)) (k : String) (x : DVal) : List (String × DVal) :=
+  match fs with
+  | [] => []
+  | (k', v) :: rest => if k' == k then (k', x) :: rest else (k', v) :: setD rest k x
+
+/-- replace field `k` in place (a field the struct does not have is not created: Go would panic) -/
+def DVal.set (d : DVal) (k : String) (x : DVal) : DVal :=
+  match d with
+  | .struct fs => .struct (setD fs k x)
+  | _ => d
+
+end Zog
